@@ -342,10 +342,14 @@ int main(int argc, char* const* argv)
     }
 
     if (pipe_in || pipe_out) {
-        if (!ContinueScript(*env)) {
-            fprintf(stderr, "error: %s\n", ScriptErrorString(*env->serror).c_str());
-            print_dualstack();
-            return 1;
+        // step through Instance so that script failures raised as C++ exceptions (numeric overflow,
+        // non-minimal numbers, empty-stack pops) are reported like any other script error
+        while (!instance.at_end()) {
+            if (!instance.step()) {
+                fprintf(stderr, "error: %s\n", instance.error_string().c_str());
+                print_dualstack();
+                return 1;
+            }
         }
 
         print_stack(env->stack, true);
